@@ -10,7 +10,7 @@ from pyvc import smt
 from pyvc import strings
 from pyvc import theory_cal as cal
 from pyvc.contract import Contract, LoopSpec
-from pyvc.values import (DictVal, ExcVal, IsoStr, ListVal, Obj, Opaque, SeqVal, Sym, SymList, TupleVal, Unsupported)
+from pyvc.values import (Builtin, DictVal, ExcVal, IsoStr, ListVal, Obj, Opaque, SeqVal, Sym, SymList, TupleVal, Unsupported)
 
 from .common import *  # noqa
 from .c04_periods import sym_period, period_requires
@@ -621,6 +621,86 @@ class NodeGetAtInstant(Contract):
                                     "__of": a["self"]}))
 
 
+SCALE = "openfisca_core.parameters.parameter_scale.ParameterScale"
+KINDS = (("single_amount", "amount", "SingleAmountTaxScale"), ("marginal_amount", "amount", "MarginalAmountTaxScale"),
+         ("average_rate", "average_rate", "LinearAverageRateTaxScale"), ("marginal_rate", "rate", "MarginalRateTaxScale"))
+
+
+class ScaleGetAtInstant(Contract):
+    name = f"{SCALE}._get_at_instant"
+    prop = ("C06",)
+    top_level = True
+    cases = tuple(k[0] for k in KINDS)
+    descr = ("a scale evaluated at a date is the scale of its kind holding one bracket per bracket whose threshold and value are both "
+             "defined at that date, with those values, in order - whichever of its brackets are defined at that date")
+
+    def setup(self, I, ctx, case):
+        kind, key, _ = [k for k in KINDS if k[0] == case][0]
+        views = []
+        for b in range(3):
+            has_t, has_v = ctx.fresh_bool("b%d_has_threshold" % b), ctx.fresh_bool("b%d_has_%s" % (b, key))
+            tv, vv = Sym(ctx.fresh_real("b%d_threshold" % b)), Sym(ctx.fresh_real("b%d_%s" % (b, key)))
+            pres = {"threshold": (has_t, tv), key: (has_v, vv)}
+            children = B.MapVal(lambda q, pres=pres: pres.get(B.enum_str(q), (z3.BoolVal(False), None)) if isinstance(B.enum_str(q), str) else (z3.BoolVal(False), None), "children")
+            view = Opaque(None, "bracket-at-instant", {"fields": {"_children": children, "threshold": tv, key: vv}})
+            views.append({"view": view, "has": z3.And(has_t, has_v), "t": tv, "v": vv})
+        ctx.ghost["views"] = views
+        brackets = ListVal([Opaque(None, "bracket%d" % b, {"getattr": (lambda ctx2, n, b=b: Builtin("get_at_instant", lambda ctx3, inst: ctx.ghost["views"][b]["view"]) if n == "get_at_instant" else None)})
+                            for b in range(3)])
+        md = DictVal()
+        if case == "single_amount":
+            from pyvc.interp import hkey
+            md.items[hkey("type")] = "single_amount"
+            md.keyvals[hkey("type")] = "type"
+        scale = Obj(I.resolve_qualified(SCALE), {"brackets": brackets, "metadata": md, "name": "scale"}, label="scale")
+        return {"self": scale, "instant": IsoStr(key=ctx.fresh_int("date_key")), "__case": case}
+
+    @staticmethod
+    def local_contracts():
+        from .c18_engine import rec
+        out = {}
+        for mod, cls in (("single_amount_tax_scale", "SingleAmountTaxScale"), ("marginal_amount_tax_scale", "MarginalAmountTaxScale"),
+                         ("linear_average_rate_tax_scale", "LinearAverageRateTaxScale"), ("marginal_rate_tax_scale", "MarginalRateTaxScale")):
+            pass
+        RL = "openfisca_core.taxscales.rate_tax_scale_like.RateTaxScaleLike.add_bracket"
+        AL = "openfisca_core.taxscales.amount_tax_scale_like.AmountTaxScaleLike.add_bracket"
+        out[RL] = rec(RL, "add_bracket", [("return", None)])
+        out[AL] = rec(AL, "add_bracket", [("return", None)])
+        return out
+
+    def post(self, I, ctx, a, out, old):
+        from .c18_engine import log_of
+        kind, key, clsname = [k for k in KINDS if k[0] == a["__case"]][0]
+        views = ctx.ghost["views"]
+        if out[0] != "return" or not isinstance(out[1], Obj):
+            return [("returns-a-scale", False)]
+        adds = log_of(ctx, "add_bracket")
+        any_value = z3.Or(*[B._zb(v["view"].attrs["fields"]["_children"].lookup(key)[0]) for v in views])
+        res = []
+        # which kind: by the type given, else by what the brackets define at that date (any of them)
+        if kind in ("marginal_amount", "average_rate"):
+            res.append(("kind-of-scale-follows-what-the-brackets-define", z3.Implies(any_value, z3.BoolVal(out[1].cls.name == clsname))))
+            if out[1].cls.name != clsname:
+                return res
+        else:
+            res.append(("kind-of-scale", out[1].cls.name == clsname))
+        res.append(("brackets-go-to-the-scale-returned", all(c["args"]["self"] is out[1] for c in adds)))
+        # the brackets added are exactly the defined ones, in order, with their values: compare position by position
+        n = len(adds)
+        defined = [v["has"] for v in views]
+        count = sum([z3.If(d, 1, 0) for d in defined])
+        res.append(("one-bracket-per-bracket-defined-at-that-date", count == n))
+        for pos, c in enumerate(adds):
+            th = c["args"].get("threshold")
+            val = c["args"].get("rate", c["args"].get("amount"))
+            alts = []
+            for b, v in enumerate(views):
+                before = sum([z3.If(d, 1, 0) for d in defined[:b]]) if b else z3.IntVal(0)
+                alts.append(z3.And(v["has"], before == pos, B.zreal(th) == B.zreal(v["t"]), B.zreal(val) == B.zreal(v["v"])))
+            res.append((f"bracket-{pos + 1}-added-is-the-{pos + 1}th-defined-one-with-its-threshold-and-value", z3.Or(*alts)))
+        return res
+
+
 class NodeAtInstantInit(Contract):
     name = f"{NODE_AT}.__init__"
     prop = ("C06",)
@@ -765,5 +845,5 @@ def install(I):
     I.overrides[(f"{P}.config", "str_by_instant_cache")] = str_cache_model(I)
 
 
-CONTRACTS = [InstantStr(), PaiInit(), ParamGetAtInstant(), ParamUpdate(), AtInstantGet(), AtInstantCall(),
+CONTRACTS = [ScaleGetAtInstant(), InstantStr(), PaiInit(), ParamGetAtInstant(), ParamUpdate(), AtInstantGet(), AtInstantCall(),
              NodeGetAtInstant(), NodeAtInstantInit(), ParamInit()]
